@@ -3,6 +3,7 @@ package main
 import (
 	"encoding/json"
 	"fmt"
+	"os"
 	"strings"
 	"sync"
 
@@ -830,8 +831,153 @@ func c20Trees(c *Ctx) []rnode {
 	return trees
 }
 
+// c20Concurrent (Engine C): "neither panics nor deadlocks on stacks with the mutex enabled" with somebody
+// else at work. One thread reveals the root of a small tree in which every node has its mutex; the other
+// makes one call on the root or on a nested stack (a Transfer into an ancestor, a repeated SetMutex, a
+// Push, a Reveal of its own ...). Every schedule up to the preemption bound; oracle: no deadlock, no
+// panic, no breach of the lock protocol, every leaf that was there is still there.
+var c20cur struct{ root, mid, inner stackage.Stack }
+
+type c20ConcCase struct {
+	Tree     string `json:"tree"`
+	Other    string `json:"other"`
+	Schedule []int  `json:"schedule"`
+}
+
+func c20Concurrent(c *Ctx, only *c20ConcCase) (execs int, complete bool) {
+	complete = true
+	shapes := []struct {
+		name string
+		mk   func() stackage.Stack
+	}{
+		{"AND[OR[x LIST[a b]] c]", func() stackage.Stack {
+			c20cur.inner = stackage.List().SetMutex().Push("a", "b")
+			c20cur.mid = stackage.Or().SetMutex().Push("x", c20cur.inner)
+			c20cur.root = stackage.And().SetMutex().Push(c20cur.mid, "c")
+			return c20cur.root
+		}},
+		{"AND[OR[LIST[a b]] c] (the OR is a wrapper Reveal removes)", func() stackage.Stack {
+			c20cur.inner = stackage.List().SetMutex().Push("a", "b")
+			c20cur.mid = stackage.Or().SetMutex().Push(c20cur.inner)
+			c20cur.root = stackage.And().SetMutex().Push(c20cur.mid, "c")
+			return c20cur.root
+		}},
+		{"AND[Cond(k = OR[LIST[a]]) c]", func() stackage.Stack {
+			c20cur.inner = stackage.List().SetMutex().Push("a")
+			c20cur.mid = stackage.Or().SetMutex().Push(c20cur.inner)
+			c20cur.root = stackage.And().SetMutex().Push(stackage.Cond("k", stackage.Eq, c20cur.mid), "c")
+			return c20cur.root
+		}},
+	}
+	node := map[string]func() stackage.Stack{"root": func() stackage.Stack { return c20cur.root }, "mid": func() stackage.Stack { return c20cur.mid }, "inner": func() stackage.Stack { return c20cur.inner }}
+	var others []schedOp
+	for _, n := range []string{"root", "mid", "inner"} {
+		n := n
+		others = append(others,
+			schedOp{n + ".SetMutex() once more", func(stackage.Stack) string { node[n]().SetMutex(); return "" }},
+			schedOp{n + ".Push(z)", func(stackage.Stack) string { node[n]().Push("z"); return "" }},
+			schedOp{n + ".Reveal()", func(stackage.Stack) string { node[n]().Reveal(); return "" }},
+			schedOp{n + ".String()", func(stackage.Stack) string { _ = node[n]().String(); return "" }})
+	}
+	for _, pair := range [][2]string{{"inner", "root"}, {"mid", "root"}, {"inner", "mid"}} { // (never an ancestor into its own descendant: that ties a knot)
+		pair := pair
+		others = append(others, schedOp{pair[0] + ".Transfer(" + pair[1] + ")", func(stackage.Stack) string { node[pair[0]]().Transfer(node[pair[1]]()); return "" }})
+	}
+	bound := 2
+	if !c.Quick() {
+		bound = 3
+	}
+	var leavesOf func(v any, out map[string]int, depth int)
+	leavesOf = func(v any, out map[string]int, depth int) {
+		if depth > 12 {
+			return
+		}
+		if st, ok := refAsStack(v); ok {
+			for _, e := range contents(st) {
+				leavesOf(e, out, depth+1)
+			}
+			return
+		}
+		if cd, ok := refAsCond(v); ok {
+			leavesOf(cd.Expression(), out, depth+1)
+			return
+		}
+		if str, ok := v.(string); ok {
+			out[str]++
+		}
+	}
+	schedFine = true
+	for _, sh := range shapes {
+		for _, other := range others {
+			if only != nil && (only.Tree != sh.name || only.Other != other.Name) {
+				continue
+			}
+			progs := [][]schedOp{{{"root.Reveal()", func(s stackage.Stack) string { s.Reveal(); return "" }}}, {other}}
+			sig := "Reveal|" + opClass(other.Name)
+			want := map[string]int{}
+			leavesOf(sh.mk(), want, 0)
+			distinct := map[string]bool{}
+			visit := func(x *execResult) {
+				c.Transitions.Add(int64(len(x.points)))
+				desc := func(msg string) string {
+					return fmt.Sprintf("%s\n tree %s, one thread calls Reveal on the root, the other %s\n schedule %v\n trace: %s", msg, sh.name, other.Name, x.choices, strings.Join(x.trace, " / "))
+				}
+				rep := map[string]any{"tree": sh.name, "other": other.Name, "schedule": x.choices}
+				switch {
+				case x.timeout:
+					c.Violation("concurrent:hang:"+sig, desc("a thread did not reach its next scheduling point within 20 s"), rep, len(x.choices))
+				case x.protocol != "":
+					c.Violation("concurrent:lock-protocol:"+sig, desc("lock protocol broken: "+x.protocol), rep, len(x.choices))
+				case len(x.panicked) > 0:
+					c.Violation("concurrent:panic:"+sig, desc("panic: "+strings.Join(x.panicked, " ; ")), rep, len(x.choices))
+				case x.deadlock != "":
+					c.Violation("concurrent:deadlock:"+sig, desc("deadlock: "+x.deadlock), rep, len(x.choices))
+				default:
+					got := map[string]int{}
+					leavesOf(c20cur.root, got, 0)
+					for l := range want {
+						if got[l] == 0 {
+							c.Violation("concurrent:leaf-lost:"+sig, desc(fmt.Sprintf("leaf %q is no longer anywhere under the root (leaves now %v)", l, got)), rep, len(x.choices))
+							break
+						}
+					}
+					distinct[fmt.Sprint(got)+x.final] = true
+				}
+			}
+			if only != nil {
+				// replay: the recorded schedule, twice (the same schedule gives the same observations)
+				x1 := runSchedule(sh.mk, progs, only.Schedule, false)
+				x2 := runSchedule(sh.mk, progs, only.Schedule, false)
+				if x1.deadlock != x2.deadlock || x1.protocol != x2.protocol || len(x1.panicked) != len(x2.panicked) || x1.final != x2.final {
+					fmt.Println("replay: NON-DETERMINISTIC schedule (infrastructure problem)")
+					os.Exit(2)
+				}
+				fmt.Printf("replay: tree %s, Reveal on the root | %s\n schedule %v\n trace: %s\n panics: %v deadlock: %q protocol: %q\n", sh.name, other.Name, only.Schedule, strings.Join(x1.trace, " / "), x1.panicked, x1.deadlock, x1.protocol)
+				visit(x1)
+				return 2, true
+			}
+			n, done := exploreSchedules(sh.mk, progs, bound, false, visit, c.TimeUp)
+			execs += n
+			complete = complete && done
+			if len(distinct) > 1 {
+				c.Nontrivial("concurrent " + sh.name + other.Name)
+			}
+			for o := range distinct {
+				c.Outcome("concurrent " + sh.name + other.Name + o)
+			}
+		}
+	}
+	return execs, complete
+}
+
 func init() {
 	register(&Check{ID: "C20", Engine: "B", Run: func(c *Ctx) {
+		nConc, concDone := c20Concurrent(c, nil)
+		c.States.Add(int64(nConc))
+		c.Traces.Add(int64(nConc))
+		c.Evals.Add(int64(nConc))
+		c.Bound["concurrent_schedules"] = nConc
+		c.Bound["concurrent_preemption_bound"] = map[bool]int{true: 2, false: 3}[c.Quick()]
 		installLockModel()
 		if msg := sameNamedTypes(); msg != "" {
 			c.Violation("same-named-types", "two distinct types that merely print the same name (function-local declarations), one an alias of Stack, one a plain value: "+msg, nil, 0)
@@ -849,7 +995,8 @@ func init() {
 		}
 		c.Bound["mutex_modes"] = len(modes)
 		c.Bound["behaviour_modes"] = len(behs)
-		c.Exhaustive = true
+		c.Exhaustive = concDone
+		c.Rule += "; (concurrent, Engine C) three small trees with every mutex on: one thread reveals the root while another makes one call (repeated SetMutex, Push, Reveal, String on root / middle / innermost stack, Transfer of a nested stack into an ancestor or the other way), every schedule up to the preemption bound, scheduling points at every lock operation and inside critical sections: no deadlock, no panic, no unlock of a mutex not held, no leaf lost"
 		parallelFor(len(trees), func(i int) {
 			if c.TimeUp() {
 				return
@@ -880,6 +1027,11 @@ func init() {
 		c.Sample(c20Case{trees[7], 0, 1})
 		c.Assumptions = append(c.Assumptions, "an unwrap is also accepted at a Condition's expression position and for alias-typed stacks (the statement does not restrict where the redundant Stack sits)")
 	}, Replay: func(c *Ctx, raw json.RawMessage) {
+		var cc c20ConcCase
+		if json.Unmarshal(raw, &cc) == nil && cc.Tree != "" {
+			c20Concurrent(c, &cc)
+			return
+		}
 		installLockModel()
 		var cs c20Case
 		json.Unmarshal(raw, &cs)
